@@ -289,8 +289,10 @@ def register(schema, name, resolvers="all", typecfg=None, subscriptions=None, sk
         if td.kind in ("INTERFACE", "UNION") and td.name in typecfg.get("type", ()):
             TypeResolver(td.name, schema_name=name)(_type_resolver("_t_type"))
     for d in schema.directives:
-        impl = (directive_impl or {}).get(d.name) or PassDirective(d.name)
-        Directive(d.name, schema_name=name)(impl)
+        impl = (directive_impl or {}).get(d.name)
+        if impl is False:  # declaration-only directive: no implementation registered (legal; nothing to call)
+            continue
+        Directive(d.name, schema_name=name)(impl or PassDirective(d.name))
     if subscriptions is None and schema.subscription and schema.type(schema.subscription):
         subscriptions = {"%s.%s" % (schema.subscription, f.name): make_source("%s.%s" % (schema.subscription, f.name))
                          for f in schema.type(schema.subscription).fields}
